@@ -96,6 +96,10 @@ func (node *Node) GetKey() []byte {
 
 // MakeNode constructs an *Node from an encoded byte slice.
 func MakeNode(nk, buf []byte) (*Node, error) {
+	if len(nk) != int64Size+int32Size {
+		return nil, fmt.Errorf("invalid node key length %d", len(nk))
+	}
+
 	// Read node header (height, size, key).
 	height, n, err := encoding.DecodeVarint(buf)
 	if err != nil {
@@ -156,6 +160,9 @@ func MakeNode(nk, buf []byte) (*Node, error) {
 			if err != nil {
 				return nil, fmt.Errorf("decoding legacy node.leftNodeKey, %w", err)
 			}
+			if len(node.leftNodeKey) != hashSize {
+				return nil, errors.New("invalid legacy node.leftNodeKey, must be a hash")
+			}
 			buf = buf[n:]
 		} else {
 			var (
@@ -182,6 +189,9 @@ func MakeNode(nk, buf []byte) (*Node, error) {
 			node.rightNodeKey, _, err = encoding.DecodeBytes(buf)
 			if err != nil {
 				return nil, fmt.Errorf("decoding legacy node.rightNodeKey, %w", err)
+			}
+			if len(node.rightNodeKey) != hashSize {
+				return nil, errors.New("invalid legacy node.rightNodeKey, must be a hash")
 			}
 		} else {
 			var (
